@@ -4,6 +4,7 @@ package main
 // with obligations (assertions) collected per function.
 
 import (
+	"sync"
 	"fmt"
 	"go/constant"
 	"go/token"
@@ -125,6 +126,7 @@ type Enc struct {
 	rec      map[string]bool
 	ghostComps map[string]bool
 	freshMemo  map[*ssa.Function]map[string]bool
+	replayMu   sync.Mutex
 }
 
 // cnt2(S, V) = |{k in S : V[k]}| for finite S: built-in counting axioms (trusted base)
